@@ -410,9 +410,13 @@ func runC36(p *Prog, r *Result) {
 	checkShebangFromFormattedBytes(p, r, "R36f")
 	r.Rule("R36g", "the file mode hands formatBytes exactly the bytes it read from the file", 2)
 	checkFileBytesUntouched(p, r, "R36g")
+	r.Rule("R36h", "the directory walk survives a file that fails: after the callback called formatPath, every return it can reach is nil", 1)
+	checkWalkSurvivesFileErrors(p, r, "R36h")
 }
 
 var c36Controls = []Control{
+	{Name: "unknown-file-error-aborts-the-walk", Rule: "R36h", WantKey: "main#walk callback: after formatPath call 1", File: "cmd/shfmt/main.go",
+		Mutate: ctlReplaceAnywhere("\t\t\t} else if err != nil {\n\t\t\t\tfmt.Fprintln(os.Stderr, err)\n\t\t\t\tstatus = 1\n\t\t\t}\n\t\t\treturn nil\n", "\t\t\t} else if _, ok := err.(syntax.ParseError); ok {\n\t\t\t\tfmt.Fprintln(os.Stderr, err)\n\t\t\t\tstatus = 1\n\t\t\t} else if err != nil {\n\t\t\t\treturn err\n\t\t\t}\n\t\t\treturn nil\n")},
 	{Name: "file-mode-strips-a-prefix", Rule: "R36g", WantKey: "formatPath#readBuf.Write(", File: "cmd/shfmt/main.go",
 		Mutate: ctlReplaceAnywhere("\t\treadBuf.Write(copyBuf[:n])\n", "\t\treadBuf.Write(bytes.TrimPrefix(copyBuf[:n], []byte(\"\\xef\\xbb\\xbf\")))\n")},
 	{Name: "file-mode-sniffs-a-prefix", Rule: "R36f", WantKey: "formatPath#the language comes from the shebang", File: "cmd/shfmt/main.go",
